@@ -759,3 +759,80 @@ Proof. split; vm_compute; reflexivity. Qed.
 Print Assumptions C10_inverse_permutation_spec.
 Print Assumptions C10_apply_permutation_spec.
 Print Assumptions C10_segment_cumsum_spec.
+
+(* ====================================================================================== *)
+(* Matmul with one rank-1 operand (numpy.matmul's promotion rule: the vector is treated as a
+   1 x k, resp. k x 1, matrix and the added dimension is removed from the result) and Dot of an
+   N-d array by a 1-d array (C10_dot_nd_by_1d_full above, now proved). *)
+From CC Require Import Proofs.EvalSpecMatmul1d.
+
+Theorem C10_matmul_vec_mat_spec : forall st st1 st2 b1 k m e0 e1,
+  valid_shape b1 -> 0 < k -> 0 < m ->
+  let s1 := b1 ++ [k; m] in let rs := b1 ++ [m] in
+  length e0 = Z.to_nat k -> length e1 = Z.to_nat (prod_list s1) ->
+  exists r, eval_node OMatmul [TArray [k] st; TArray s1 st1] (TArray rs st2) [VArr e0; VArr e1] = Ok (VArr r) /\
+    length r = Z.to_nat (prod_list rs) /\
+    forall bi j, in_shape bi b1 -> 0 <= j < m ->
+      get r rs (bi ++ [j]) =
+      dot_sum k (fun l => get e0 [k] [l]) (fun l => get e1 s1 (bi ++ [l; j])) mod modulus st.
+Proof. exact matmul_vec_mat_spec. Qed.
+Theorem C10_matmul_mat_vec_spec : forall st st1 st2 b0 n k e0 e1,
+  valid_shape b0 -> 0 < n -> 0 < k ->
+  let s0 := b0 ++ [n; k] in let rs := b0 ++ [n] in
+  length e0 = Z.to_nat (prod_list s0) -> length e1 = Z.to_nat k ->
+  exists r, eval_node OMatmul [TArray s0 st; TArray [k] st1] (TArray rs st2) [VArr e0; VArr e1] = Ok (VArr r) /\
+    length r = Z.to_nat (prod_list rs) /\
+    forall bi i, in_shape bi b0 -> 0 <= i < n ->
+      get r rs (bi ++ [i]) =
+      dot_sum k (fun l => get e0 s0 (bi ++ [i; l])) (fun l => get e1 [k] [l]) mod modulus st.
+Proof. exact matmul_mat_vec_spec. Qed.
+Theorem C10_dot_nd_by_1d_spec : C10_dot_nd_by_1d_full.
+Proof. exact dot_nd_by_1d_spec. Qed.
+
+Example C10_example_matmul_1d :
+  (* (3, 2^100) x [[[1,2],[3,4]], [[5,6],[7,2^27]]] *)
+  eval_node OMatmul [TArray [2] U128; TArray [2; 2; 2] U128] (TArray [2; 2] U128)
+            [VArr [3; 2 ^ 100]; VArr [1; 2; 3; 4; 5; 6; 7; 2 ^ 27]]
+  = Ok (VArr [3 + 3 * 2 ^ 100; 6 + 4 * 2 ^ 100; 15 + 7 * 2 ^ 100; 18 + 2 ^ 127]) /\
+  (* [[1,2],[3,4]] x (5, 2^126) *)
+  eval_node OMatmul [TArray [2; 2] U128; TArray [2] U128] (TArray [2] U128)
+            [VArr [1; 2; 3; 4]; VArr [5; 2 ^ 126]]
+  = Ok (VArr [5 + 2 ^ 127; 15]) /\
+  eval_node ODot [TArray [2; 2] U128; TArray [2] U128] (TArray [2] U128)
+            [VArr [1; 2; 3; 4]; VArr [5; 2 ^ 126]]
+  = Ok (VArr [5 + 2 ^ 127; 15]).
+Proof. repeat split; vm_compute; reflexivity. Qed.
+
+Print Assumptions C10_matmul_vec_mat_spec.
+Print Assumptions C10_matmul_mat_vec_spec.
+Print Assumptions C10_dot_nd_by_1d_spec.
+
+(* ====================================================================================== *)
+(* VectorGet (index read as an unsigned 64-bit value, out of range = error) and NamedTupleGet
+   (the component of the first field with the given name). *)
+From CC Require Import Proofs.EvalSpecGetters.
+
+Theorem C10_vector_get_spec : forall size et ist t l x,
+  let i := as_u64 ist x in
+  i < size -> i < Z.of_nat (length l) ->
+  eval_node OVectorGet [TVector size et; TScalar ist] t [VTup l; VArr [x]]
+  = Ok (nth (Z.to_nat i) l (VArr [])).
+Proof. exact vector_get_spec. Qed.
+Theorem C10_named_tuple_get_spec : forall fs name t l,
+  length l = length fs ->
+  (exists f, In f fs /\ fst f = name) ->
+  exists i, eval_node (ONamedTupleGet name) [TNamed fs] t [VTup l] = Ok (nth i l (VArr [])) /\
+    (i < length fs)%nat /\ fst (nth i fs (String.EmptyString, TTuple [])) = name /\
+    forall j, (j < i)%nat -> fst (nth j fs (String.EmptyString, TTuple [])) <> name.
+Proof. exact named_tuple_get_spec. Qed.
+
+Example C10_example_getters :
+  eval_node OVectorGet [TVector 2 (TScalar U8); TScalar U32] (TScalar U8) [VTup [VArr [7]; VArr [9]]; VArr [1]]
+  = Ok (VArr [9]) /\
+  eval_node (ONamedTupleGet "b") [TNamed [("a"%string, TScalar U8); ("b"%string, TArray [2] U8)]] (TArray [2] U8)
+            [VTup [VArr [7]; VArr [1; 2]]]
+  = Ok (VArr [1; 2]).
+Proof. split; vm_compute; reflexivity. Qed.
+
+Print Assumptions C10_vector_get_spec.
+Print Assumptions C10_named_tuple_get_spec.
